@@ -3,6 +3,8 @@
 "A completes, then B runs" is a legal interleaving of two threads, so  signature(B after A) == signature(B alone)  is a
 necessary condition of C19; a counterexample is a true violation.  Pre-emptive interleavings INSIDE a call cannot be
 encoded by a sequential symbolic executor and are outside this check (see DESIGN.md)."""
+import os
+import pickle
 import threading
 
 from vlib.chglue import PART_K, PART_N, TIER, THOROUGH, in_part, reset_defaults, concrete
@@ -13,9 +15,39 @@ NC = K.NCALLS
 _ALONE = {}
 
 
+def _forked(thunk):
+    """run thunk() in a forked child and return its (picklable) result.  Every schedule runs in a child of its own, so that what one
+    schedule leaves behind in the process (module-level tables, caches, defaults) can neither leak into the next path explored in
+    this worker nor into the 'alone' signatures: the parent never executes a corpus call."""
+    r, w = os.pipe()
+    pid = os.fork()
+    if pid == 0:
+        code = 0
+        try:
+            os.close(r)
+            try:
+                data = pickle.dumps(('ok', thunk()))
+            except BaseException as e:      # noqa - the child must never return into the caller's frames
+                data = pickle.dumps(('err', '%s: %s' % (type(e).__name__, e)))
+            with os.fdopen(w, 'wb') as f:
+                f.write(data)
+        except BaseException:               # noqa
+            code = 3
+        finally:
+            os._exit(code)
+    os.close(w)
+    with os.fdopen(r, 'rb') as f:
+        data = f.read()
+    os.waitpid(pid, 0)
+    kind, val = pickle.loads(data)
+    if kind == 'err':
+        raise RuntimeError('forked schedule failed: %s' % val)
+    return val
+
+
 def alone(i):
     if i not in _ALONE:
-        _ALONE[i] = K.sig(K.CALLS[i])
+        _ALONE[i] = _forked(lambda: K.sig(K.CALLS[i]))
     return _ALONE[i]
 
 
@@ -27,13 +59,18 @@ def _in_thread(fn):
     return box[0]
 
 
-def serial(order, trace=None, threads=False):
-    """run the calls of `order` one after the other; the last one must return what it returns when run alone"""
+def _run_schedule(order, threads):
     reset_defaults()
-    want = alone(order[-1])
     for i in order[:-1]:
         (_in_thread(K.CALLS[i]) if threads else K.sig(K.CALLS[i]))
-    got = _in_thread(K.CALLS[order[-1]]) if threads else K.sig(K.CALLS[order[-1]])
+    return _in_thread(K.CALLS[order[-1]]) if threads else K.sig(K.CALLS[order[-1]])
+
+
+def serial(order, trace=None, threads=False):
+    """run the calls of `order` one after the other (in a fresh child process); the last one must return what it returns when run
+    alone (in another fresh child)"""
+    want = alone(order[-1])
+    got = _forked(lambda: _run_schedule(order, threads))
     if trace is not None:
         trace.append('after %s, %s returned\n   %r\nalone it returns\n   %r' % (
             [K.CALLS[i].__name__ for i in order[:-1]], K.CALLS[order[-1]].__name__, got, want))
@@ -75,11 +112,14 @@ def explain(call):
 
 SPEC = {
     'property': 'C19',
+    'level': 'exploration',
     'files': ['hl7apy/factories.py', 'hl7apy/__init__.py', 'hl7apy/core.py', 'hl7apy/base_datatypes.py'],
     'functions_encoded': ['every function reached by the %d corpus calls of harness/corpus.py, run back to back in one process '
                           '(datatype_factory incl. the overridden factories and the ST fallback, load_library, parse_*, '
                           'constructors, to_er7, validate)' % NC],
     'assumptions': ['ONLY serial schedules (call boundaries) are explored: a necessary condition of C19',
+                    'every schedule, and every "alone" run, executes in a forked child of the worker, i.e. from the state of a '
+                    'process that has imported hl7apy and run nothing else',
                     'call indices are symbolic and exhausted by CrossHair/z3; each ordered tuple then runs concretely'],
     'outside': ['every schedule with a context switch inside a call; switch-interval stress; N simultaneous threads'],
     'stubs': [],
